@@ -30,7 +30,7 @@ package check
 //@ func EngineDependencies.ReadOnlyMapper
 //@   trusted
 //@   pure
-//@   ensures result != nil
+//@   ensures result != nil && result.ReadOnly
 
 //@ spec wfe(e *Engine) bool = e != nil && e.d != nil
 
@@ -59,6 +59,7 @@ package check
 //@   props C03 C08
 //@   requires wfe(e) && r != nil && ctx != nil
 //@   modifies engineCalls, engineAllowed, engineFailed, faulted, db
+//@   ensures[C17] read-only: db == old(db)
 //@   ensures[C03] err-means-denied: result1 != nil ==> !result0
 //@   ensures[C08] engine-decision: result0 == (result.Err == nil && result.Membership == checkgroup.IsMember) && result1 == result.Err
 //@   ghost-at-return engineCalls := engineCalls + 1
@@ -70,6 +71,7 @@ package check
 //@   props C02 C03 C15
 //@   opt abandon-props C15
 //@   modifies faulted, db
+//@   ensures[C17] read-only: db == old(db)
 //@   requires wfe(e) && r != nil && ctx != nil
 //@   callsite (*Engine).checkIsAllowed requires[C02] clamp: restDepth == eff(old(restDepth), globalMaxDepth) && 1 <= restDepth && restDepth <= globalMaxDepth
 //@   ensures[C03] result-inv: res.Err != nil ==> res.Membership != checkgroup.IsMember
@@ -237,7 +239,7 @@ package check
 //@ func handlerDependencies.ReadOnlyMapper
 //@   trusted
 //@   pure
-//@   ensures result != nil
+//@   ensures result != nil && result.ReadOnly
 //@ func handlerDependencies.PermissionEngine
 //@   trusted
 //@   pure
@@ -253,17 +255,18 @@ package check
 
 //@ func (*Engine).BatchCheck
 //@   modifies engineCalls, engineAllowed, engineFailed, faulted, db
+//@   ensures[C17] read-only: db == old(db)
 //@   noframe
 //@   props C08 C13
 //@   requires wfe(e) && ctx != nil
-//@   requires[C13] no-nil-tuple: forall i in 0..len(tuples) :: tuples[i] != nil
 //@   ensures[C08] one-result-per-tuple: result1 == nil ==> len(result0) == len(tuples)
 
 //@ func (*Engine).BatchCheck$1
 //@   modifies elems(results), engineCalls, engineAllowed, engineFailed, faulted, db
+//@   ensures[C17] db == old(db)
 //@   noframe
 //@   props C08 C13 C03
-//@   requires wfe(e) && ctx != nil && mapper != nil && tuple != nil && 0 <= i && i < len(results)
+//@   requires wfe(e) && ctx != nil && mapper != nil && 0 <= i && i < len(results)
 //@   ensures[C03] slot-inv: results[i].Err != nil ==> results[i].Membership != checkgroup.IsMember
 
 // ghost record of the engine's last decision, set by CheckIsMember
@@ -278,6 +281,7 @@ package check
 
 //@ func (*Handler).getCheck
 //@   modifies engineCalls, engineAllowed, engineFailed, faulted, db
+//@   ensures[C17] read-only: db == old(db)
 //@   props C08 C13 C17
 //@   requires wfh(h) && ctx != nil && q != nil
 //@   ensures[C08] decision-is-the-engines: result0 ==> engineCalls == old(engineCalls) + 1 && engineAllowed && !engineFailed && result1 == nil
@@ -286,6 +290,7 @@ package check
 
 //@ func (*Handler).postCheck
 //@   modifies engineCalls, engineAllowed, engineFailed, faulted, db
+//@   ensures[C17] read-only: db == old(db)
 //@   props C08 C13 C17
 //@   requires wfh(h) && ctx != nil && query != nil && body != nil
 //@   ensures[C08] decision-is-the-engines: result0 ==> engineCalls == old(engineCalls) + 1 && engineAllowed && !engineFailed && result1 == nil
@@ -313,6 +318,7 @@ package check
 
 //@ func (*Handler).Check
 //@   modifies engineCalls, engineAllowed, engineFailed, faulted, db
+//@   ensures[C17] read-only: db == old(db)
 //@   props C08 C13 C17
 //@   requires wfh(h) && ctx != nil && req != nil && (req.Tuple != nil ==> wfwiresubject(req.Tuple.Subject)) && wfwiresubject(req.Subject)
 //@   ensures[C08] decision-is-the-engines: result1 == nil ==> result0 != nil && engineCalls == old(engineCalls) + 1 && !engineFailed && result0.Allowed == engineAllowed
@@ -320,6 +326,7 @@ package check
 
 //@ func (*Handler).doBatchCheck
 //@   modifies engineCalls, engineAllowed, engineFailed, faulted, db
+//@   ensures[C17] read-only: db == old(db)
 //@   props C08 C13 C17 C03
 //@   requires wfh(h) && ctx != nil && query != nil && body != nil
 //@   ensures[C08] one-result-per-tuple: result1 == nil ==> len(result0) == len(request.Tuples)
@@ -329,6 +336,7 @@ package check
 
 //@ func (*Handler).BatchCheck
 //@   modifies engineCalls, engineAllowed, engineFailed, faulted, db
+//@   ensures[C17] read-only: db == old(db)
 //@   props C08 C13 C17 C03
 //@   requires wfh(h) && ctx != nil && req != nil
 //@   requires forall i in 0..len(req.Tuples) :: req.Tuples[i] != nil && wfwiresubject(req.Tuples[i].Subject)
